@@ -230,6 +230,28 @@ def gen_parallel(rng):
                 egr=[(d_, rng.choice([0, 60]), 4)], cacheall=0, profile="parallel", base_hour=0)
 
 
+def gen_manylines(rng):
+    """52-60 single-trip lines between the same two stops, leaving 30 s apart, each riding one hour: the alternatives search finds more
+    than 50 routes with pairwise distinct line sets inside its 200-calculation cap and its travel-time window - the only way to reach
+    the cap on the number of returned alternatives (added after seeded change C10-r4 was missed)"""
+    nl = rng.randint(52, 60)
+    ns = 2 + rng.randint(0, 1)
+    foot = [(s, s, 0, 0) for s in range(ns)]
+    lines = [(0, 0) for _ in range(nl)]
+    t0 = rng.choice([3600, 7200, 30000]) + 60 * rng.randint(0, 20)
+    ride = rng.choice([3000, 3600])
+    ids = list(range(1, nl + 40)); rng.shuffle(ids)
+    paths, trips = [], []
+    for l in range(nl):
+        paths.append((l, [0, ns - 1], [rng.randint(1, 50)]))
+        dep = t0 + 30 * l
+        trips.append((l, 0, ids.pop(), [dep, dep + ride], [dep, dep + ride], [1, 1], [1, 1]))
+    scen = [dict(services=[0], onlyLines=[], exceptLines=[], onlyAgencies=[], exceptAgencies=[], onlyModes=[], exceptModes=[])]
+    return dict(ns=ns, nag=1, nsv=1, foot=foot, lines=lines, paths=paths, trips=trips, scenarios=scen,
+                acc=[(0, rng.choice([0, 30]), 3)], egr=[(ns - 1, rng.choice([0, 30]), 4)], cacheall=0, profile="manylines", base_hour=0,
+                t_hint=(t0, t0 + 30 * nl + ride))
+
+
 def gen_closer(rng):
     """a trip with two candidate alighting stops P (earlier, shorter onward walk) and Q (later, longer
     walk): exercises the rule that moves a trip's exit to a "closer" stop (reverse_calculation.cpp:89-105)"""
@@ -388,6 +410,8 @@ def gen_dataset(rng, stream):
         return gen_parallel(rng)
     if stream == "closer":
         return gen_closer(rng)
+    if stream == "manylines":
+        return gen_manylines(rng)
     return gen_network(rng, stream)
 
 
@@ -418,6 +442,10 @@ def gen_query(rng, d, forward=None, cap=None, alt=False, limits=True):
     elif prof == "ties":
         lo, hi = d["t_hint"]
         t = rng.choice([lo - 600, lo - 60, lo + 1800, lo + 3000, lo + 5400, hi, hi + 600])
+    elif prof == "manylines":
+        lo, hi = d["t_hint"]
+        t = rng.choice([lo - 90, lo - 60, lo - 30])
+        forward = True
     else:
         t = rng.choice([0, 1800, 2900, 3600, 4000, 5000, 7200, 9000]) + rng.choice([0, 0, 1, 59, 600])
     tt = rng.choice([0, 1]) if forward is None else (0 if forward else 1)
@@ -443,6 +471,10 @@ def gen_query(rng, d, forward=None, cap=None, alt=False, limits=True):
     if prof == "twoends" and d.get("cap_hints") and forward is not False and not cap_disabled_by_caller and rng.random() < 0.4:
         treq, capv, mwv = rng.choice(d["cap_hints"])
         q["time_of_trip"], q["time_type"], q["min_waiting_time"], q["max_first_waiting_time"] = treq, 0, mwv, capv
+        for k in ("max_travel_time", "max_access_travel_time", "max_egress_travel_time", "max_transfer_travel_time"): q.pop(k, None)
+    if prof == "manylines":
+        # nothing may cut the fan of departures: no cap, no limits, a waiting time every line can meet
+        q["max_first_waiting_time"] = 0; q["min_waiting_time"] = rng.choice([0, 30])
         for k in ("max_travel_time", "max_access_travel_time", "max_egress_travel_time", "max_transfer_travel_time"): q.pop(k, None)
     if alt:
         q["alternatives"] = rng.choice(["1", "true"])
